@@ -44,7 +44,7 @@ pub open spec fn commit_pre(c: &StarkConfig) -> bool {
     &&& c.proof_of_work.n_bits <= 128
 }
 
-//@repo crates/stark/src/commit.rs fn stark_commit props=C01,C08
+//@repo crates/stark/src/commit.rs fn stark_commit props=C01,C02,C08
 pub fn stark_commit<Layout: LayoutTrait>(
     transcript: &mut Transcript,
     public_input: &PublicInput,
@@ -65,30 +65,30 @@ pub fn stark_commit<Layout: LayoutTrait>(
             let alpha2 = ts_squeeze(d_oods(d0, u), 0);
             // ---- commitments carry the roots and configs they were read with
             &&& c.traces.original.config == config.traces.original && c.traces.original.vector_commitment.config == config.traces.original.vector
-                    && c.traces.original.vector_commitment.commitment_hash == u.traces.original   // [C01,C08:original-trace-commitment]
+                    && c.traces.original.vector_commitment.commitment_hash == u.traces.original   // [C01,C02,C08:original-trace-commitment]
             &&& c.traces.interaction.config == config.traces.interaction && c.traces.interaction.vector_commitment.config == config.traces.interaction.vector
-                    && c.traces.interaction.vector_commitment.commitment_hash == u.traces.interaction // [C01,C08:interaction-trace-commitment]
+                    && c.traces.interaction.vector_commitment.commitment_hash == u.traces.interaction // [C01,C02,C08:interaction-trace-commitment]
             &&& c.composition.config == config.composition && c.composition.vector_commitment.config == config.composition.vector
-                    && c.composition.vector_commitment.commitment_hash == u.composition            // [C01,C08:composition-commitment]
+                    && c.composition.vector_commitment.commitment_hash == u.composition            // [C01,C02,C08:composition-commitment]
             // ---- challenges are squeezed exactly after the messages that precede them
-            &&& Layout::ie_ok(&c.traces.interaction_elements, ts_absorb1(d0, u.traces.original@))   // [C08:interaction-elements-after-original-root]
-            &&& c.interaction_after_composition@ == z                                              // [C08:oods-point-after-composition-root]
-            &&& is_powers(fv(c.interaction_after_oods@), 1, alpha2, (Layout::MASK_SIZE + Layout::CONSTRAINT_DEGREE) as nat) // [C08,C16:deep-coefficients-are-powers-of-the-challenge-after-the-oods-values]
+            &&& Layout::ie_ok(&c.traces.interaction_elements, ts_absorb1(d0, u.traces.original@))   // [C01,C02,C08:interaction-elements-after-original-root]
+            &&& c.interaction_after_composition@ == z                                              // [C01,C02,C08:oods-point-after-composition-root]
+            &&& is_powers(fv(c.interaction_after_oods@), 1, alpha2, (Layout::MASK_SIZE + Layout::CONSTRAINT_DEGREE) as nat) // [C01,C02,C08,C16:deep-coefficients-are-powers-of-the-challenge-after-the-oods-values]
             // ---- out-of-domain check
             &&& c.oods_values@ == u.oods_values@ && u.oods_values@.len() == Layout::MASK_SIZE + Layout::CONSTRAINT_DEGREE // [C01,C02:commitment-keeps-the-checked-oods-vector]
             &&& (exists|coeffs: Seq<nat>| is_powers(coeffs, 1, alpha, Layout::N_CONSTRAINTS as nat)
-                    && oods_consistent::<Layout>(fv(u.oods_values@), &c.traces.interaction_elements, public_input, coeffs, z, stark_domains.trace_domain_size@, stark_domains.trace_generator@)) // [C01,C16:trace-and-composition-agree-at-the-oods-point-with-coefficients-alpha^i]
+                    && oods_consistent::<Layout>(fv(u.oods_values@), &c.traces.interaction_elements, public_input, coeffs, z, stark_domains.trace_domain_size@, stark_domains.trace_generator@)) // [C01,C02,C16:trace-and-composition-agree-at-the-oods-point-with-coefficients-alpha^i]
             // ---- FRI commitment
             &&& c.fri.config == config.fri && c.fri.last_layer_coefficients == u.fri.last_layer_coefficients
             &&& fri_commit_pre(&u.fri, &config.fri)                                                  // [C02,C18:fri-unsent-commitment-shape-validated]
             &&& c.fri.inner_layers@.len() == config.fri.n_layers@ - 1 && c.fri.eval_points@.len() == config.fri.n_layers@ - 1
             &&& (forall|i: int| 0 <= i < config.fri.n_layers@ - 1 ==> (#[trigger] c.fri.inner_layers@[i]).config == config.fri.inner_layers@[i]
                     && c.fri.inner_layers@[i].vector_commitment.config == config.fri.inner_layers@[i].vector
-                    && c.fri.inner_layers@[i].vector_commitment.commitment_hash == u.fri.inner_layers@[i]) // [C01,C08:fri-inner-layer-commitments]
-            &&& (forall|i: int| 0 <= i < config.fri.n_layers@ - 1 ==> (#[trigger] c.fri.eval_points@[i])@ == round_eval_point(d_oods(d0, u), fv(u.fri.inner_layers@), i as nat)) // [C08:fri-eval-points-after-their-layer-roots]
+                    && c.fri.inner_layers@[i].vector_commitment.commitment_hash == u.fri.inner_layers@[i]) // [C01,C02,C08:fri-inner-layer-commitments]
+            &&& (forall|i: int| 0 <= i < config.fri.n_layers@ - 1 ==> (#[trigger] c.fri.eval_points@[i])@ == round_eval_point(d_oods(d0, u), fv(u.fri.inner_layers@), i as nat)) // [C01,C02,C08:fri-eval-points-after-their-layer-roots]
             // ---- proof of work on the digest after FRI, nonce absorbed before queries are drawn
-            &&& pow_ok(be32(d_fri(d0, u, config.fri.n_layers@)), config.proof_of_work.n_bits, u.proof_of_work.nonce) // [C09:pow-checked-on-the-digest-after-the-fri-commitment]
-            &&& final(transcript).digest@ == d_pow(d0, u, config.fri.n_layers@) && final(transcript).counter@ == 0 // [C08,C09:nonce-absorbed-last-before-queries]
+            &&& pow_ok(be32(d_fri(d0, u, config.fri.n_layers@)), config.proof_of_work.n_bits, u.proof_of_work.nonce) // [C01,C02,C09:pow-checked-on-the-digest-after-the-fri-commitment]
+            &&& final(transcript).digest@ == d_pow(d0, u, config.fri.n_layers@) && final(transcript).counter@ == 0 // [C01,C02,C08,C09:nonce-absorbed-last-before-queries]
         }),
 {
     proof { Layout::lemma_constants(); }
